@@ -389,7 +389,11 @@ int main(int argc, char ** argv) {
             for (size_t i = 0; i < np; ++i) {
                 size_t s = c.nextSize(), a = c.nextSize();
                 for (size_t s1 = 0; s1 < S; ++s1) {
-                    dq.setQFunction(q);
+                    // every other probe sets the tables through an argument that ALIASES the learner's own sum table
+                    // (getQFunction() returns a reference to it): setQFunction(Q*/2) makes the sum table Q*, and
+                    // setQFunction(getQFunction()) must then give A = B = Q* exactly as setQFunction(Q*) does
+                    if ((i + s1) % 2 == 1) { MDP::QFunction h = q * 0.5; dq.setQFunction(h); dq.setQFunction(dq.getQFunction()); }
+                    else dq.setQFunction(q);
                     auto rcopy = dq.rand_; auto dcopy = dq.dist_;
                     bool coin = dcopy(rcopy);
                     dq.stepUpdateQ(s, a, s1, rw(s, a));
